@@ -229,6 +229,38 @@ theorem reduceA_spec : ∀ (fuel a : Nat), a < fuel * 34028236692093846346337455
     · rw [if_neg hge]
       exact congrArg Fuel.done (Nat.mod_eq_of_lt (by omega)).symm
 
+/-- the invariant holds initially: `v = M`, `a = 0`, `u = x` or `x + M` (odd), `d = M − 1` -/
+theorem K_init (x u : Nat) (hx : x < 340282366920938463463374557953744961537) (hx0 : x ≠ 0)
+    (hu : u = if x % 2 = 1 then x else x + 340282366920938463463374557953744961537) :
+    K (x : ZMod P) (-1) u 340282366920938463463374557953744961537 340282366920938463463374557953744961536 0 0 := by
+  have hprime : Nat.Prime 340282366920938463463374557953744961537 := WinterProofs.Primes.prime_M128
+  have hcu : (u : ZMod P) = (x : ZMod P) := by
+    rw [hu]
+    split
+    · rfl
+    · rw [Nat.cast_add, cast_P, add_zero]
+  refine ⟨?_, by norm_num, ?_, ?_, ?_, ?_, by norm_num, by norm_num⟩
+  · rw [hu]; split <;> omega
+  · -- gcd(u, M) = 1 because M is prime and does not divide x
+    apply Nat.Coprime.symm
+    rw [Nat.Prime.coprime_iff_not_dvd hprime]
+    intro hdvd
+    have hdx : 340282366920938463463374557953744961537 ∣ x := by
+      rw [hu] at hdvd
+      split at hdvd
+      · exact hdvd
+      · exact (Nat.dvd_add_left (dvd_refl _)).1 hdvd
+    have := Nat.le_of_dvd (by omega) hdx
+    omega
+  · rw [hcu]
+    have : ((340282366920938463463374557953744961536 : Nat) : ZMod P) = -1 := by
+      have h1 : ((340282366920938463463374557953744961536 + 1 : Nat) : ZMod P) = 0 := cast_P
+      rw [Nat.cast_add, Nat.cast_one] at h1
+      linear_combination h1
+    rw [this]
+  · rw [cast_P]; simp
+  · rw [hu]; split <;> omega
+
 /-- the inversion terminates within the fuel on every non-zero canonical word and returns the
     canonical inverse -/
 theorem inv_spec (x : Nat) (hx : x < 340282366920938463463374557953744961537) (hx0 : x ≠ 0) :
@@ -240,34 +272,7 @@ theorem inv_spec (x : Nat) (hx : x < 340282366920938463463374557953744961537) (h
   rw [M_lit]
   obtain ⟨u, hu⟩ : ∃ u, u = if x % 2 = 1 then x else x + 340282366920938463463374557953744961537 := ⟨_, rfl⟩
   rw [← hu]
-  have hprime : Nat.Prime 340282366920938463463374557953744961537 := WinterProofs.Primes.prime_M128
-  have hK : K (x : ZMod P) (-1) u 340282366920938463463374557953744961537 340282366920938463463374557953744961536 0 0 := by
-    have hcu : (u : ZMod P) = (x : ZMod P) := by
-      rw [hu]
-      split
-      · rfl
-      · rw [Nat.cast_add, cast_P, add_zero]
-    refine ⟨?_, by norm_num, ?_, ?_, ?_, ?_, by norm_num, by norm_num⟩
-    · rw [hu]; split <;> omega
-    · -- gcd(u, M) = 1 because M is prime and does not divide x
-      apply Nat.Coprime.symm
-      rw [Nat.Prime.coprime_iff_not_dvd hprime]
-      intro hdvd
-      have hdx : 340282366920938463463374557953744961537 ∣ x := by
-        rw [hu] at hdvd
-        split at hdvd
-        · exact hdvd
-        · exact (Nat.dvd_add_left (dvd_refl _)).1 hdvd
-      have := Nat.le_of_dvd (by omega) hdx
-      omega
-    · rw [hcu]
-      have : ((340282366920938463463374557953744961536 : Nat) : ZMod P) = -1 := by
-        have h1 : ((340282366920938463463374557953744961536 + 1 : Nat) : ZMod P) = 0 := cast_P
-        rw [Nat.cast_add, Nat.cast_one] at h1
-        linear_combination h1
-      rw [this]
-    · rw [cast_P]; simp
-    · rw [hu]; split <;> omega
+  have hK := K_init x u hx hx0 hu
   obtain ⟨r, n', hr, hinv, hb, hn⟩ := outer_spec (x : ZMod P) 800 0 u _ _ 0 hK
     (lt_trans (by norm_num : 340282366920938463463374557953744961537 < 2 ^ 130)
       (Nat.pow_lt_pow_right (by norm_num) (by norm_num)))
